@@ -140,7 +140,9 @@ def table : List Entry := [
   ⟨fCommon "EbMalloc.c", "svt_verif_fail_file", lockedCounter, ["svt_verif_fail_here"], "hook: diagnostic record written when the injected failure fires; never read by the library"⟩,
   ⟨fCommon "EbMalloc.c", "svt_verif_fail_line", lockedCounter, ["svt_verif_fail_here"], "hook: as svt_verif_fail_file"⟩,
   ⟨fDec "EbDecParseObu.c", "svt_av1_verif_obu_trace", writeOnceConstant, ["decode_multiple_obu", "svt_av1_verif_obu_read"],
-    "SVT_AV1_VERIF hook: NULL unless a test harness points it at its own buffer; the library only writes through it"⟩
+    "SVT_AV1_VERIF hook: NULL unless a test harness points it at its own buffer; the library only writes through it"⟩,
+  ⟨fDec "EbDecParseBlock.c", "svt_verif_toolcount", lockedCounter, ["read_cdef", "read_lr_unit", "svt_av1_verif_dec_toolcount", "svt_verif_count_block"],
+    "SVT_AV1_VERIF hook (ee172ae): per-block tool-usage counters, atomic adds only; read and reset only through the accessor called by test harnesses, never by decoding code"⟩
 ]
 
 def subset (xs ys : List String) : Bool := xs.all (fun x => ys.contains x)
